@@ -2,20 +2,12 @@
    C01 / C03): the compile-time assertions hold exactly when the runtime cast cannot fail, and
    when they hold the must_ cast returns what the runtime cast returns. *)
 From Coq Require Import NArith ZArith List Bool String Lia ZifyBool ZifyN.
-From BM Require Import Base.Outcome Base.Prims Base.Layout Base.Tactics Spec.CastSpec.
+From BM Require Import Base.Outcome Base.Prims Base.Layout Base.Tactics Spec.CastSpec Spec.MustSpec.
 From BM Require Import Proofs.CastBase Proofs.CastDerive Proofs.CastSlice Proofs.CastSliceMut Proofs.CastRef Proofs.CastValue.
 From BM.Gen Require Internal Must.
 Open Scope bool_scope.
 Open Scope string_scope.
 Open Scope N_scope.
-
-(* the three generated assertion constants, as booleans *)
-Definition assert_true (c : outcome bool) : bool := match c with Ret true => true | _ => false end.
-Definition must_slice_okb (A B : ty) : bool :=
-  assert_true (Must.ASSERT_SIZE_MULTIPLE_OF_OR_INPUT_ZST A B) && assert_true (Must.ASSERT_ALIGN_GREATER_THAN_EQUAL A B).
-Definition must_ref_okb (A B : ty) : bool :=
-  assert_true (Must.ASSERT_SIZE_EQUAL A B) && assert_true (Must.ASSERT_ALIGN_GREATER_THAN_EQUAL A B).
-Definition must_val_okb (A B : ty) : bool := assert_true (Must.ASSERT_SIZE_EQUAL A B).
 
 Lemma must_slice_okb_spec A B : must_slice_okb A B = true <-> slice_infallible A B.
 Proof.
